@@ -5,12 +5,13 @@
    included), every fan-out D >= 1, both inheritance regimes ([old] = PDF < 1.3) and every
    choice the hoisting code makes among equally good values ([choose], [choose_rot]).
    Hypothesis [NoDup (append_ids prog)]: the pages are distinct objects.
-   "run ... = Ok out" excludes the runs in which the model reports a Go panic (see
-   [fanout_full] below); that the fuelled loops never run out of fuel is [no_fuel_exhaustion]. *)
+   "run ... = Ok out" holds for every program that does not close the root range itself
+   ([run_total]): the model never reports a Go panic ([fanout_full]) and the fuelled loops never
+   run out of fuel ([no_fuel_exhaustion]). *)
 From Coq Require Import List Arith Bool ZArith.
 From GoPdf.Base Require Import Res.
 From GoPdf.C17 Require Import KTDepths.
-From GoPdf.C16 Require Import PageTree PageTreeInst PageTreePre PTStruct PTMain PTReaders PTFuel PTFuel2 PTPageNum PTNoPanic.
+From GoPdf.C16 Require Import PageTree PageTreeInst PageTreePre PTStruct PTMain PTReaders PTFuel PTFuel2 PTPageNum PTNoPanic PTMerge PTSafe.
 Import ListNotations.
 
 (* the leaves of the written root, left to right, are the pages in document order; an operation
@@ -46,11 +47,33 @@ Theorem fanout_partial : forall D old choose choose_rot, 1 <= D ->
 Proof. exact (fun D old c cr HD => fanout_partial_l D old c cr HD). Qed.
 Print Assumptions fanout_partial.
 
-(* the full statement: the panic branch of mergeNodes (2 <= b-a <= maxDegree) and the index
-   expressions of merge/collapse are unreachable.  See [fanout_refuted_before_F47] for the code as it
-   was; for the code as it is the statement is not proved yet (exercised under recover()). *)
-Definition fanout_full : Prop := forall D old choose choose_rot, 2 <= D ->
+(* the full statement, for the code as it is after fix F47: the panic branch of mergeNodes
+   (2 <= b-a <= maxDegree) and the index expressions of merge/collapse are unreachable, for EVERY
+   program (any nesting of ranges, operations on closed or vanished writers, in any order).
+   The proof carries the tail invariant Inv (depths weakly decrease, fewer than D nodes per depth)
+   through every writer of the tree: AppendPageDict restores it (PTNoPanic), merge() of a closed
+   child's tail into its parent restores it (PTMerge.merge_ok - this is where the line added by F47
+   is used), the futureInt heap stays well formed (PTSafe).  See [fanout_refuted_before_F47] for the
+   code as it was. *)
+Theorem fanout_full : forall D old choose choose_rot, 2 <= D ->
   forall prog, run D old choose choose_rot prog <> Err Panic.
+Proof. exact run_never_panics. Qed.
+Print Assumptions fanout_full.
+
+(* stronger: a program runs to the end, or it is refused because it closes the root range itself
+   (the harness never does; Go has no such call - Writer.Close on the root IS the end of run) *)
+Theorem run_total : forall D old choose choose_rot, 2 <= D ->
+  forall prog, (exists out, run D old choose choose_rot prog = Ok out) \/ run D old choose choose_rot prog = Err Other.
+Proof. exact run_safe. Qed.
+Print Assumptions run_total.
+
+(* the step used by fanout_full: merging two tails that satisfy the invariant never panics and
+   gives a tail that satisfies it *)
+Theorem merge_restores_invariant : forall D old choose choose_rot, 2 <= D ->
+  forall a b next, Inv D (depths a) -> Inv D (depths b) ->
+  exists out nx, merge D old choose choose_rot a b next = Ok (out, nx) /\ Inv D (depths out).
+Proof. exact merge_ok. Qed.
+Print Assumptions merge_restores_invariant.
 
 (* BEFORE fix F47 (PageTreePre.merge_pre = merge() without the line added by commit 16000eb) the
    statement was false: the tail of 3968 pages appended to the root (15 subtrees of depth 2, 8 of depth 1)
@@ -73,7 +96,7 @@ Example witness_fixed :
   end = true.
 Proof. split; [exact merge_fixed_ok_l|exact panic_witness_runs]. Qed.
 
-(* proved towards fanout_full (code after F47): under the invariant of a tail - depths weakly decrease,
+(* parts of fanout_full, kept as statements of their own: under the invariant of a tail - depths weakly decrease,
    fewer than D nodes per depth - AppendPageDict's balancing loop never panics and restores the
    invariant, and collapse never panics (its start++ loop always stops at a run boundary that leaves
    at least two nodes to merge) *)
